@@ -170,7 +170,7 @@ def run(run: C.Run):
         sus = [f for f in suspects if f in FUNCS]
         if sus:
             cases += list(exhaustive_cases([-2, -1, 0, 1, 2, "nan", "inf", "-inf"], 3 if not thorough else 4, sus))
-    check_reduce_cases(run, cases, "C04", nontrivial)
+    R.check_reduce_cases(run, cases, "C04", nontrivial)
 
     n_user, bad_user = user_agg_cases(rng, 60 if not thorough else 600)
     run.extra["user_aggregation_runs"] = n_user
@@ -189,55 +189,12 @@ def run(run: C.Run):
         "lacks a group (or has it only as NaN) that another block has; distinct = distinct JSON of the case")
 
 
-def check_reduce_cases(run, cases, pid, nontrivial_fn, grouped_fn=None):
-    """shared driver: flox vs oracle (property level) and flox vs Coq model (correspondence)"""
-    results = R.run_cases(cases)
-    coq_cases, coq_idx = [], []
-    model_skipped = 0
-    for i, (case, (impl_res, rec, orc)) in enumerate(zip(cases, results)):
-        run.count(R.case_key(case), nontrivial_fn(case))
-        if i % max(1, len(cases) // 5) == 0:
-            run.sample({"case": case, "flox": impl_res.get("result", impl_res.get("exc")), "numpy_oracle": orc.get("result")})
-        if "error" in orc:
-            continue
-        bad = R.compare_oracle(case, impl_res, orc)
-        if bad:
-            fid = F.classify(pid, case, impl_res, bad)
-            if fid:
-                run.known(fid, F.describe(fid))
-            else:
-                run.violation({"property": pid, "kind": "flox result differs from the per-group NumPy reduction",
-                               "case": case, "flox": impl_res, "oracle": orc, "mismatches": bad[:5],
-                               "resolved": rec, "how_to_run": f"./check {pid} --replay <this file>"}, tag="oracle")
-            continue
-        if impl_res["ok"] and "FILL" not in orc["result"]:
-            grouped = grouped_fn(case, rec) if grouped_fn else False
-            try:
-                coq_cases.append(R.coq_case(case, rec, impl_res, grouped))
-                coq_idx.append(i)
-            except ValueError:
-                model_skipped += 1
-    ok, mfail, sfail, log = R.eval_cases(coq_cases, pid)
-    run.extra["model_cases_evaluated_in_coq"] = len(coq_cases)
-    run.extra["model_cases_skipped"] = model_skipped
-    run.oblige("correspondence:K3 model(Cases.model_ok) == flox", ok and not mfail,
-               (log[-400:] if not ok else "") + (f" {len(mfail)} mismatching cases" if mfail else ""))
-    run.oblige("correspondence:K0 Spec(Cases.spec_ok) == flox == NumPy", ok and not sfail,
-               f"{len(sfail)} mismatching cases" if sfail else "")
-    if not ok or mfail or sfail:
-        ex = [cases[coq_idx[j]] for j in (mfail + sfail)[:3]]
-        run.violation({"property": pid, "kind": "correspondence between the Coq model and flox no longer checks",
-                       "suite": "K3/K0 (Cases.v)", "examples": ex, "coq_log": log[-1500:],
-                       "note": "flox agrees with the NumPy oracle on these cases; the model or the code changed"},
-                      nofail=True, tag="corr")
-
-
 def replay(run: C.Run, path):
     import json
 
     rp = json.load(open(path))
     if "case" in rp:
-        check_reduce_cases(run, [rp["case"]], run.pid, nontrivial)
+        R.check_reduce_cases(run, [rp["case"]], run.pid, nontrivial)
     else:
         P.front(run)
         if any(not o[1] for o in run.obligations):
